@@ -11,7 +11,8 @@
        newid    SUBSET Tids                 _new_id / _versioned (version_file, always with a fresh file id)
        remid    SUBSET Tids                 _removed_id       (unversion_file)
        exec     [Tids -> "yes"|"no"|NONE]   _new_executability
-   Tree gives, for the trans-ids that stand for paths of the tree being transformed, name / parent / kind / ver. *)
+   Tree gives, for the trans-ids that stand for paths of the tree being transformed, name / parent / kind / ver / x
+   (x = execute bit). *)
 EXTENDS Naturals, Sequences, FiniteSets, TLC
 CONSTANTS Tids, Tree, NameRank
 
@@ -85,9 +86,12 @@ Unresolvable == {"unversioned executability", "non-file executability", "overwri
 (* ---- the declarative result of a conflict-free transform.  Content is a tag: the old content of a tree
         trans-id, or the new content created for it. *)
 Live(m)       == {t \in Tids : HasPath(m, t) /\ FinalKind(m, t) # NONE}
+\* the execute bit: what set_executability scheduled, else the bit of the tree file the trans-id stands for (new content
+\* created for a tree trans-id takes over the mode of the old file: DiskTreeTransform._set_mode)
+FinalExec(m, t) == FinalKind(m, t) = "file" /\ (m.exec[t] = "yes" \/ (m.exec[t] = NONE /\ InTree(t) /\ Tree[t].x))
 Content(m, t) == IF FinalKind(m, t) # "file" THEN "" ELSE IF m.contents[t] = "file" THEN "new" ELSE "old"
 FinalTree(m)  == {[path |-> IF Rooted(m, t) THEN PathOf(m, t) ELSE <<"?", t>>, kind |-> FinalKind(m, t), c |-> Content(m, t),
                    t |-> IF FinalKind(m, t) = "file" THEN t ELSE "",
-                   x |-> (m.exec[t] = "yes" /\ FinalKind(m, t) = "file"), ver |-> FinalVer(m, t)] : t \in Live(m)}
+                   x |-> FinalExec(m, t), ver |-> FinalVer(m, t)] : t \in Live(m)}
 TreeNow       == FinalTree(Blank)
 =============================================================================
